@@ -1,6 +1,7 @@
 package main
 
 import (
+	"sort"
 	"fmt"
 	"go/ast"
 	"go/constant"
@@ -23,10 +24,11 @@ type Env struct {
 	vars map[string]TV
 	pkg  *types.Package
 	old  *State // state for old(...) in postconditions
+	loopOld *State // state on entry of the loop whose invariant is being evaluated (loopframe)
 }
 
 func (e *Env) child() *Env {
-	n := &Env{vars: map[string]TV{}, pkg: e.pkg, old: e.old}
+	n := &Env{vars: map[string]TV{}, pkg: e.pkg, old: e.old, loopOld: e.loopOld}
 	for k, v := range e.vars {
 		n.vars[k] = v
 	}
@@ -175,6 +177,13 @@ func (x *X) eval(env *Env, e ast.Expr) TV {
 			return TV{x.loadAt(elemLoc(el, s.Arr, "(+ "+s.Off+" "+idx.V.(S).T+")"), el), el}
 		case kString:
 			return TV{S{"(gs.at " + base.V.(S).T + " " + idx.V.(S).T + ")", SInt}, types.Typ[types.Uint8]}
+		case kArray:
+			// an array value (of scalars) is an SMT array
+			at := base.T.Underlying().(*types.Array)
+			if av, ok := base.V.(S); ok {
+				es := x.leafSort(at.Elem())
+				return TV{S{"(select " + av.T + " " + idx.V.(S).T + ")", es}, at.Elem()}
+			}
 		case kMap:
 			mt := base.T.Underlying().(*types.Map)
 			m := base.V.(MapV)
@@ -434,6 +443,28 @@ func (x *X) evalCall(env *Env, e *ast.CallExpr) TV {
 			}
 			k := x.eval(env, e.Args[0])
 			return TV{S{"(select " + sv.V.(S).T + " " + k.V.(S).T + ")", SBool}, boolT}
+		case "backed":
+			// backed(s, &p.f): slice s starts at element 0 of the array field f of object p
+			sl := x.eval(env, e.Args[0]).V.(Slice)
+			if u, ok := e.Args[1].(*ast.UnaryExpr); ok && u.Op == token.AND {
+				if sel, ok := u.X.(*ast.SelectorExpr); ok {
+					base := x.eval(env, sel.X)
+					if p, ok := base.V.(Ptr); ok && p.Kind == pObj && len(p.Path) == 0 {
+						root := base.T.Underlying().(*types.Pointer).Elem()
+						id := x.interiorArr(objLoc(root, p.Obj).field(sel.Sel.Name))
+						return TV{S{fmt.Sprintf("(and (= %s %s) (= %s 0))", sl.Arr, id, sl.Off), SBool}, boolT}
+					}
+				}
+			}
+			panic("contract: backed(s, &p.f) needs an array field f of the object p points to")
+		case "touches":
+			return TV{S{x.evalTouches(env, e, env.old), SBool}, boolT}
+		case "loopframe":
+			// like touches(), relative to the state on entry of the loop
+			if env.loopOld == nil {
+				panic("contract: loopframe() outside a loop invariant")
+			}
+			return TV{S{x.evalTouches(env, e, env.loopOld), SBool}, boolT}
 		case "buflen", "bufat":
 			// ghost contents of a bytes.Buffer / strings.Builder: buflen(&b), bufat(&b, i)
 			a := x.eval(env, e.Args[0])
@@ -688,4 +719,135 @@ func (x *X) evalQuant(env *Env, e *ast.CallExpr, exists bool) TV {
 		res = not(res)
 	}
 	return TV{S{res, SBool}, types.Typ[types.Bool]}
+}
+
+// heapIn is the term for heap key `key` in state st (materialising its base name).
+func (x *X) heapIn(st *State, key string) string {
+	if t, ok := st.heap[key]; ok {
+		return t
+	}
+	name := st.baseName(key)
+	x.sc.Declare(name, nil, x.heapSorts[key])
+	st.heap[key] = name
+	return name
+}
+
+// evalTouches renders the frame condition touches(o1, o2, ...): relative to
+// the old state, the heap differs at most at the listed objects (pointers,
+// maps), at arrays owned by them (array fields), at the listed backing arrays
+// (slices) and at objects that did not exist in the old state.
+// Each heap key that differs gets a proxy Q with
+//   Q => forall r not listed/fresh: cur[r] == old[r]      (pattern on cur[r])
+//   not Q => a skolem witness r not listed/fresh with cur[r] != old[r]
+// so the builtin can be used on either side of an obligation.
+func (x *X) evalTouches(env *Env, e *ast.CallExpr, old *State) string {
+	if old == nil {
+		panic("contract: touches() outside a postcondition or invariant")
+	}
+	if x.sc.paramName != "" {
+		panic("contract: touches() inside a quantifier")
+	}
+	ts := x.touchArgs(env, e)
+	var refs, arrs []string
+	for _, r := range ts.refs {
+		refs = append(refs, r.term)
+	}
+	for _, a := range ts.arrs {
+		arrs = append(arrs, a.term)
+	}
+	fieldRefs := ts.fieldRefs
+	if _, ok := x.heapSorts["ALLOC"]; !ok {
+		x.heapSorts["ALLOC"] = arrSort(SBool)
+	}
+	allocOld := x.heapIn(old, "ALLOC")
+	var keys []string
+	for k := range x.heapSorts {
+		if k != "ALLOC" {
+			keys = append(keys, k)
+		}
+	}
+	sort.Strings(keys)
+	var conj []string
+	if len(x.st.log) > len(old.log) {
+		// something was forgotten by pattern since the old state: keys not yet
+		// materialised may have changed, the frame cannot be established
+		conj = append(conj, x.sc.Fresh("frame.unknown", SBool))
+	}
+	for _, k := range keys {
+		cur := x.heapIn(x.st, k)
+		was := x.heapIn(old, k)
+		if cur == was {
+			continue
+		}
+		srt := x.heapSorts[k]
+		if !strings.HasPrefix(srt, "(Array Int ") {
+			// a global scalar or a key indexed by something else: must be unchanged
+			conj = append(conj, fmt.Sprintf("(= %s %s)", cur, was))
+			continue
+		}
+		exempt := func(r string) string {
+			var ds []string
+			if strings.HasPrefix(k, "E:") {
+				// rows are arrays: fresh arrays, arrays inside fresh or listed objects, listed arrays
+				owner := "(ia.owner " + r + ")"
+				ds = append(ds, fmt.Sprintf("(and (> %s 0) (not (select %s %s)))", r, allocOld, r))
+				ds = append(ds, fmt.Sprintf("(and (< %s 0) (not (select %s %s)))", r, allocOld, owner))
+				for _, a := range arrs {
+					ds = append(ds, fmt.Sprintf("(= %s %s)", r, a))
+				}
+				for _, o := range refs {
+					ds = append(ds, fmt.Sprintf("(and (< %s 0) (= %s %s))", r, owner, o))
+				}
+			} else {
+				ds = append(ds, fmt.Sprintf("(not (select %s %s))", allocOld, r))
+				for _, o := range refs {
+					ds = append(ds, fmt.Sprintf("(= %s %s)", r, o))
+				}
+				var fks []string
+				for fk := range fieldRefs {
+					fks = append(fks, fk)
+				}
+				sort.Strings(fks)
+				for _, fk := range fks {
+					os := fieldRefs[fk]
+					if k == fk || strings.HasPrefix(k, fk+"#") || strings.HasPrefix(k, fk+".") {
+						for _, o := range os {
+							ds = append(ds, fmt.Sprintf("(= %s %s)", r, o))
+						}
+					}
+				}
+			}
+			return "(or " + strings.Join(ds, " ") + ")"
+		}
+		q := x.sc.Fresh("Qframe", SBool)
+		sk := x.sc.Fresh("skf", SInt)
+		if x.polarity <= 0 {
+			// usable as a fact: stated over a declared alias of the current heap so that the pattern is a plain term
+			alias := x.sc.Fresh("fr."+k, srt)
+			x.sc.Assert(fmt.Sprintf("(= %s %s)", alias, cur))
+			x.sc.add(fmt.Sprintf("(assert (=> %s (forall ((r Int)) (! (or %s (= (select %s r) (select %s r))) :pattern ((select %s r)))))) ;@inst", q, exempt("r"), alias, was, alias))
+			// instantiated at the object / array identities the program handles
+			x.sc.n++
+			fn := fmt.Sprintf("frbody!%d", x.sc.n)
+			x.sc.add(fmt.Sprintf("(define-fun %s ((r Int)) Bool (or %s (= (select %s r) (select %s r))))", fn, exempt("r"), cur, was))
+			class := "ref"
+			if strings.HasPrefix(k, "E:") {
+				class = "arr"
+			}
+			x.quants = append(x.quants, quant{class: class, guard: q, fn: fn, line: len(x.sc.lines), key: k})
+		}
+		if x.polarity >= 0 {
+			if strings.HasPrefix(k, "E:") {
+				x.addPointT(sk, "arr", "", k)
+			} else {
+				x.addPointT(sk, "ref", "", k)
+			}
+			x.sc.Assert(fmt.Sprintf("(=> (not %s) (and (not %s) (not (= (select %s %s) (select %s %s)))))", q, exempt(sk), cur, sk, was, sk))
+		}
+		conj = append(conj, q)
+	}
+	if len(conj) == 0 {
+		return "true"
+	}
+	return "(and " + strings.Join(conj, " ") + ")"
 }
